@@ -24,11 +24,12 @@ RULE = ("cases = generated dyadic specifications with shuffled declaration order
         "unrestricted discrete states, continuous states); distinct = structural signature; evaluations = array entries whose state "
         "(by the layout contract) was re-valued by the specification-level enumeration")
 ASSUMPTIONS = ["exact comparison on dyadic inputs", "periods after which the model's arrays contain -inf are compared for shape only"]
-FORCES = [["filter"], ["f1two"], ["f1"], ["mixed"], None, ["filter", "stoch"], ["nofilter"], ["f1", "constraint"], ["filter", "cont2"]]
+FORCES = [["filter"], ["f1two"], ["f1"], ["mixed"], None, ["filter", "stoch"], ["nofilter"], ["f1", "constraint"], ["filter", "cont2"],
+          ["cs2", "nofilter"], ["cs2", "filter"], ["cs2"]]
 
 
 def cases(seed, tier):
-    n = 32 if tier == "quick" else 500
+    n = 36 if tier == "quick" else 500
     return [{"kind": "gen", "seed": seed * 1_000_003 + 50001 + i, "force": FORCES[i % len(FORCES)], "n_params": 1, "budget": 3000, "jit": i % 2 == 0} for i in range(n)]
 
 
